@@ -469,6 +469,13 @@ def D50():
         return round(s.setup_optim_problem({'p': p}, timegrid=tg).optimize().value, 4)
     return 'storage with a holding time of 10 hours, main time unit h / min / d: value %s / %s / %s' % (run('h', 1), run('min', 60), run('d', 1 / 24))
 
+@witness
+def D51():
+    tg = A.Timegrid(dt.date(2021, 1, 1), dt.datetime(2021, 1, 1, 8), freq='h', main_time_unit='h')
+    a = A.Plant(name='pl', nodes=[N1], price='price', min_cap=4., max_cap=10., ramp=1., start_ramp_lower_bounds=[2., 3.], start_ramp_upper_bounds=[2., 3.], time_already_off=5)
+    res = a.setup_optim_problem({'price': np.array([-10.] * 6 + [10.] * 2)}, timegrid=tg).optimize()
+    return 'plant off, start ramp [2, 3], ramp 1, negative prices: dispatch %s' % np.round(res.x[:8], 1)
+
 if __name__ == '__main__':
     which = sys.argv[1:] or list(W)
     for k in which:
